@@ -90,6 +90,8 @@ pub struct Net {
     conns: HashMap<String, TcpStream>,
     nstore: usize,
     bg_merge: Option<Arc<Mutex<Option<String>>>>,
+    /// flooding clients: id -> (bytes received, how the stream ended once it has ended, requests written)
+    floods: HashMap<String, Arc<Mutex<(u64, Option<&'static str>, u64)>>>,
 }
 
 enum ReadEnd {
@@ -166,6 +168,7 @@ impl Net {
             conns: HashMap::new(),
             nstore: 0,
             bg_merge: None,
+            floods: HashMap::new(),
         }
     }
 
@@ -221,6 +224,9 @@ impl Net {
         let nkeys = *kv.get("keys").unwrap_or(&2);
         let seed = *kv.get("seed").unwrap_or(&1);
         let big = *kv.get("big").unwrap_or(&10);
+        // percentage of SETs and DELs in each client's mix (the rest are GETs)
+        let sets = *kv.get("sets").unwrap_or(&40);
+        let dels = *kv.get("dels").unwrap_or(&15);
         let Some(addr) = self.addr else { return "no-server".into() };
         let t0 = Instant::now();
         let stop = Arc::new(AtomicBool::new(false));
@@ -240,10 +246,15 @@ impl Net {
             })
         };
         let mut joins = vec![];
+        // all clients send their first command together, after everybody has connected
+        let start = Arc::new(std::sync::Barrier::new(clients as usize));
         for tid in 0..clients {
+            let start = start.clone();
             joins.push(std::thread::spawn(move || {
                 let mut out = vec![];
-                let Ok(mut s) = TcpStream::connect(addr) else { return vec![format!("{} connect - - 0 0 err", tid)] };
+                let conn = TcpStream::connect(addr);
+                start.wait();
+                let Ok(mut s) = conn else { return vec![format!("{} connect - - 0 0 err", tid)] };
                 let _ = s.set_nodelay(true);
                 let mut x: u64 = seed.wrapping_mul(0x9E3779B97F4A7C15) ^ (tid + 1).wrapping_mul(0xD1B54A32D192ED03) | 1;
                 let mut next = move || {
@@ -256,7 +267,7 @@ impl Net {
                 for seq in 0..ops {
                     let key = format!("k{}", next() % nkeys);
                     let r = next() % 100;
-                    let (kind, arg, req) = if r < 40 {
+                    let (kind, arg, req) = if r < sets {
                         let size = if next() % 100 < big { 9000usize } else { 8 + (next() % 30) as usize };
                         let mut v = Vec::with_capacity(size);
                         v.extend_from_slice(&((tid << 32) | seq).to_be_bytes());
@@ -267,7 +278,7 @@ impl Net {
                         rq.extend_from_slice(&v);
                         rq.extend_from_slice(b"\r\n");
                         ("put", format!("{}.{}", tid, seq), rq)
-                    } else if r < 55 {
+                    } else if r < sets + dels {
                         ("del", "-".to_string(), format!("*2\r\n$3\r\nDEL\r\n${}\r\n{}\r\n", key.len(), key).into_bytes())
                     } else {
                         ("get", "-".to_string(), format!("*2\r\n$3\r\nGET\r\n${}\r\n{}\r\n", key.len(), key).into_bytes())
@@ -575,6 +586,72 @@ impl Net {
             }
             ["c.close", id] => {
                 self.conns.remove(*id)?;
+                Some("ok".into())
+            }
+            ["c.flood", id, req] => {
+                // a client that never pauses: one thread writes the request over and over, another reads whatever comes
+                // back, until the stream ends
+                let s = self.conns.remove(*id)?;
+                let req = unhex(req)?;
+                let st = Arc::new(Mutex::new((0u64, None, 0u64)));
+                self.floods.insert(id.to_string(), st.clone());
+                let mut w = s.try_clone().ok()?;
+                let st_w = st.clone();
+                std::thread::spawn(move || {
+                    let mut n = 0u64;
+                    while w.write_all(&req).is_ok() {
+                        n += 1;
+                        if n % 64 == 0 {
+                            st_w.lock().unwrap().2 = n;
+                        }
+                    }
+                    st_w.lock().unwrap().2 = n;
+                });
+                let mut r = s;
+                std::thread::spawn(move || {
+                    let mut tmp = [0u8; 65536];
+                    let _ = r.set_read_timeout(Some(Duration::from_secs(60)));
+                    let end = loop {
+                        match r.read(&mut tmp) {
+                            Ok(0) => break "eof",
+                            Ok(n) => st.lock().unwrap().0 += n as u64,
+                            Err(e) if e.kind() == std::io::ErrorKind::WouldBlock || e.kind() == std::io::ErrorKind::TimedOut => break "timeout",
+                            Err(_) => break "reset",
+                        }
+                    };
+                    st.lock().unwrap().1 = Some(end);
+                });
+                Some("ok".into())
+            }
+            ["c.flood.end", id, ms] => {
+                let st = self.floods.get(*id)?.clone();
+                let deadline = Instant::now() + Duration::from_millis(ms.parse().ok()?);
+                loop {
+                    let (bytes, end, sent) = *st.lock().unwrap();
+                    if let Some(e) = end {
+                        return Some(format!("bytes={} sent={} {}", bytes, sent, e));
+                    }
+                    if Instant::now() >= deadline {
+                        return Some(format!("bytes={} sent={} still-open", bytes, sent));
+                    }
+                    std::thread::sleep(Duration::from_millis(5));
+                }
+            }
+            ["c.abort", id] => {
+                // abortive close: SO_LINGER 0 makes close() send RST instead of FIN
+                use std::os::unix::io::AsRawFd;
+                let s = self.conns.remove(*id)?;
+                let lg = libc::linger { l_onoff: 1, l_linger: 0 };
+                unsafe {
+                    libc::setsockopt(
+                        s.as_raw_fd(),
+                        libc::SOL_SOCKET,
+                        libc::SO_LINGER,
+                        &lg as *const libc::linger as *const libc::c_void,
+                        std::mem::size_of::<libc::linger>() as libc::socklen_t,
+                    );
+                }
+                drop(s);
                 Some("ok".into())
             }
             ["kv.get", k] => {
